@@ -332,6 +332,9 @@ def run(ctx):
         n = rng.choice([2, 3, 4, 6])
         ps = rng.choice([2, 3, 4, 6])
         items = [('ok', rng.choice([-1, -2, -3, 0, 5, 17, 40 + i])) for i in range(n)]
+        if rng.random() < 0.5:
+            # a slow failure: its result reaches the queue only in the second drain phase (after join())
+            items[rng.randrange(n)] = ('exc', 300 + rng.randrange(9))
         cases.append(((rng.choice(['imap', 'starmap', 'starcall']), ps, rng.random() < 0.5, items, list(range(n))), True))
     # forced-shutdown race: raise mode, first item fails, more items than workers; a worker takes the last
     # queued task between the consumer's empty() test and its get() in _consume_queue
@@ -350,9 +353,11 @@ def run(ctx):
         out, raised, hang, trace = run_impl(api, ps, use_ro, items, arrival, slow_put=slow, race=race)
         n = len(items)
         pool_path = not (ps < 2 or n == 1)
-        if pool_path and raised is None and not hang:
-            # the order in which results really reached the queue
+        if pool_path and not hang and (raised is None or slow):
+            # the order in which results really reached the queue (after a raise the trace may be incomplete:
+            # results that were never put are appended in input order, the model does not look past the raise)
             arrival = [i for is_put, i in trace if is_put]
+            arrival += [i for i in range(n) if i not in arrival]
             case = (api, ps, use_ro, items, arrival)
         nontrivial = n >= 2 and (arrival != sorted(arrival) or any(i[0] == 'exc' for i in items))
         ctx.case((api, ps, use_ro, tuple(items), tuple(arrival), slow), nontrivial,
